@@ -465,6 +465,7 @@ func main() {
 			continue
 		}
 		replay(b, res, *cont)
+		kit.CloseAll()
 	}
 	if len(behs) > 0 {
 		res.Samples = append(res.Samples, behs[len(behs)/2])
